@@ -99,7 +99,16 @@ pub fn write_pinned_sized(dir: &Path, seed: u64, big: bool, huge: usize) -> anyh
         let mut parent = if rng.pct(30) { rng.uuid() } else { Uuid::nil() };
         // a chain may start where another client's chain starts or continues (a replica re-keyed
         // to a new client id): two clients then hold versions with the same non-nil parent
-        let earlier: Vec<Uuid> = exp.clients.iter().flat_map(|e: &ExpClient| e.versions.iter().flat_map(|v| [v.parent, v.vid])).filter(|u| !u.is_nil()).collect();
+        let mut earlier: Vec<Uuid> = vec![];
+        for e in &exp.clients {
+            for v in &e.versions {
+                for u in [v.parent, v.vid] {
+                    if !u.is_nil() {
+                        earlier.push(u);
+                    }
+                }
+            }
+        }
         if !earlier.is_empty() && rng.pct(45) {
             parent = *rng.pick(&earlier);
         }
